@@ -49,6 +49,12 @@ var c18Opts = []crOpt{
 	{lz4.Block64Kb, true, false, 0, lz4.Level2},
 	{lz4.Block256Kb, false, true, 0, lz4.Fast},
 	{lz4.Block64Kb, true, true, 99, lz4.Level5},
+	{lz4.Block64Kb, false, true, 0, lz4.Fast}, // size filled in by init: header checksum byte 0x00
+}
+
+func init() {
+	o := &c18Opts[len(c18Opts)-1]
+	o.size = hcZeroSize(o.bs, o.bc, o.cc)
 }
 
 var c18SrcLens = []int{0, 1, 100, 65535, 65536, 65537, 2 * 65536, 300 << 10}
